@@ -56,7 +56,7 @@ CHECKS = {
         text="System terms equal the weighted composition of equations (dyn) and unknowns (other terms, reference = the single-network "
              "loss of that unknown) for scalar / float / per-key dict / missing weights, with and without parameter batches, any number "
              "of equations and unknowns, equations called with (t, x, networks, params) in the documented order (opaque networks check "
-             "argument roles), and a 1x1 system equals the plain loss term by term.",
+             "argument roles), and a 1x1 system equals the plain loss term by term; a system whose stored weight table is replaced after construction evaluates like the system constructed with the new weights.",
         ref="DESIGN.md section 3 (C13)"),
 }
 
@@ -77,7 +77,7 @@ CHECKS["C12"] = dict(
     ref="DESIGN.md section 3 (C12)")
 CHECKS["C20"] = dict(
     technique="effect analysis on the AST over the call-graph closure of the entry points + abstract interpretation with frozen arguments",
-    text="No function reachable from evaluate/__call__/get_batch/*_batch/dynamic-loss and network wrappers stores into, deletes from or calls "
+    text="No function reachable from evaluate/__call__/get_batch/*_batch/append_*_batch/dynamic-loss and network wrappers stores into, deletes from or calls "
          "a mutating method on an object reachable from its parameters (alias-aware, fixture-checked), none uses global/nonlocal/wall-clock/"
          "host randomness; evaluating the five loss classes with deep-frozen arguments for every combination of optional batch parts performs "
          "no write; results do not depend on the insertion order of the user's dictionaries nor on whether a weight is a Python float or a 0-d array (the two representations met eagerly and under jit); generator indices cannot leave int32. Equality eager == jit == value_and_grad primal is JAX's contract for pure functions and is not re-decided.",
@@ -95,7 +95,7 @@ CHECKS["C09"] = dict(
     technique="symbolic evaluation of one batch draw per generator kind to uninterpreted terms with integer comparator normal forms, compared with the specified step",
     text="For every generator kind (times, interior, border, observation indices, parameter samples; with and without the RAR effective "
          "length) one draw equals: reshuffle iff idx + b - n_rows >= 0, reshuffle = weighted row permutation without replacement with a split "
-         "key, index reset / advanced by b, batch sliced from the updated store at the updated index, every other field unchanged; plus the "
+         "key, index reset / advanced by b, an advanced key left behind by every store (parameter and observation loaders included), batch sliced from the updated store at the updated index, every other field unchanged; plus the "
          "initial index and the end index actually compared at the first draw force a first reshuffle without int32 overflow; generators built by their constructors without RAR use the full store whatever start count the caller passed. The per-epoch served-once statement over all histories follows from "
          "this step shape by the index argument in DESIGN.md section 6 and is not model-checked (family limit).",
     ref="DESIGN.md section 3 (C09)")
